@@ -1,6 +1,7 @@
 import CoapVerif.Lemmas.Observe
 import CoapVerif.Lemmas.ObserveInv
 import CoapVerif.Lemmas.ObserveRef
+import CoapVerif.Lemmas.ObserveAbsent
 /-
 C11 — Observe: registered observers get fresh, ordered notifications until cancelled.
 Property theorems about M (CoapVerif/Model/Observe.lean), which T2 ties to the compiled libcoap on every run.
@@ -494,5 +495,94 @@ theorem idle_reclaim_keeps_observed (st : State) (evs : List Event) (hid : IdsNo
 example : RefInv runStart := init_refInv _ _ (by decide)
 example : (getSess (run runStart runEvents).1 0).ref = 2 ∧ entriesOf (run runStart runEvents).1 0 = 1 ∧
     nodesOf (run runStart runEvents).1 0 = 1 := by decide
+
+/-! ### GLOBAL: after deregistration no further notification — run level, one theorem per cause
+`NoteTo out r c tok`: `out` is a datagram written by the notify loop (tag `.note`, ANY code) to (session c, token tok) about
+resource r.  `isRegOf e c r tok`: the event is a registration request (Observe = 0) of (c, tok) on r.  `Absent st r c tok`:
+no alive resource with id r lists (c, tok).  Retransmissions (tag `.rtx`) of a Confirmable notification written BEFORE the
+deregistration are not new notifications; coap_delete_observer does not cancel them (see Lemmas/ObserveAbsent.lean). -/
+
+/-- the engine, for ALL states and event sequences: while (c, tok) is not listed on r and does not register anew, nothing is
+    written to it and it stays unlisted -/
+theorem no_notification_while_absent (st : State) (evs : List Event) (r c tok : Nat) (h : Absent st r c tok)
+    (hne : ∀ e ∈ evs, ¬ isRegOf e c r tok) :
+    Absent (run st evs).1 r c tok ∧ ∀ out ∈ (run st evs).2, ¬ NoteTo out r c tok :=
+  Coap.Observe.no_notification_while_absent st evs r c tok h hne
+
+/-- cause 1, Observe = 1 request: from the cancel request on (its own I/O step included) and over any continuation without a
+    new registration of (c, tok) on r, no notification to (c, tok) about r -/
+theorem no_notification_after_cancel_run (st : State) (c r tok key : Nat) (con : Bool) (mid : Nat) (evs : List Event)
+    (hid : IdsNodup st) (hnd : NoDupSt st) (hne : ∀ e ∈ evs, ¬ isRegOf e c r tok) :
+    ∀ out ∈ (run st (.can c r tok key con mid :: evs)).2, ¬ NoteTo out r c tok :=
+  no_notification_after_cancel_request_run st c r tok key con mid evs hid hnd hne
+
+/-- cause 2, Reset in reply to a notification — PARTIAL: the Reset names (i) a Confirmable notification still in the send queue
+    (then the token is removed from EVERY resource: coap_cancel) or (ii) the LATEST notification of an entry (`obs->pdu->mid`).
+    FULL STATEMENT (false for the pinned code, open finding rst_of_superseded_notification_ignored, witness
+    `supersededWitness`): "… names ANY notification sent to the entry under its current registration". -/
+theorem no_notification_after_reset_run_partial (st : State) (c n : Nat) (nt : Note) (evs : List Event)
+    (hid : IdsNodup st) (hnd : NoDupSt st) (hl : lookupNote st c n = some nt) :
+    (∀ q, (rxSession st c).sendq.find? (matchQ c nt.mid) = some q →
+        ∀ r', (∀ e ∈ evs, ¬ isRegOf e c r' q.token) →
+          ∀ out ∈ (run st (.rst c n :: evs)).2, ¬ NoteTo out r' c q.token) ∧
+    (∀ rid tok, (rxSession st c).sendq.find? (matchQ c nt.mid) = none →
+        findByMid (rxSession st c).res c nt.mid = some (rid, tok) →
+        (∀ e ∈ evs, ¬ isRegOf e c rid tok) →
+          ∀ out ∈ (run st (.rst c n :: evs)).2, ¬ NoteTo out rid c tok) :=
+  Coap.Observe.no_notification_after_reset_run_partial st c n nt evs hid hnd hl
+
+/-- cause 3, failed Confirmable notification: the I/O step `adv ms` in which the retransmission loop gives up on node q
+    (`GivenUp`: q is popped with its retransmission count exhausted) removes (q.sess, q.token) from every resource
+    (COAP_OBS_MAX_FAIL = 1 as extracted; `FailZero`: fail counters are 0 between steps — an invariant, `run_failZero`) -/
+theorem no_notification_after_failed_notify_run (st : State) (ms : Nat) (q : QNode) (evs : List Event)
+    (hid : IdsNodup st) (hnd : NoDupSt st) (hfz : FailZero st)
+    (hg : GivenUp ((checkNotify { st with now := st.now + ms }).1.sendq.length + 1) (checkNotify { st with now := st.now + ms }).1 q)
+    (r' : Nat) (hne : ∀ e ∈ evs, ¬ isRegOf e q.sess r' q.token) :
+    ∀ out ∈ (run (step st (.adv ms)).1 evs).2, ¬ NoteTo out r' q.sess q.token :=
+  no_notification_after_failed_notify_adv_run st ms q evs hid hnd hfz hg r' hne
+
+/-- cause 4a, error response to the (re-)registration request itself (read off the response: 4.04) -/
+theorem no_notification_after_error_response_run (st : State) (c r tok key : Nat) (con : Bool) (mid : Nat) (out : Out)
+    (evs : List Event) (hid : IdsNodup st) (hnd : NoDupSt st) (ho : out ∈ (step st (.reg c r tok key con mid)).2)
+    (htag : out.tag = .resp) (hcode : out.code = 132) (hne : ∀ e ∈ evs, ¬ isRegOf e c r tok) :
+    ∀ out' ∈ (run st (.reg c r tok key con mid :: evs)).2, ¬ NoteTo out' r c tok :=
+  no_notification_after_error_response_output_run st c r tok key con mid out evs hid hnd ho htag hcode hne
+
+/-- cause 4b, error response produced by the handler while notifying: whatever event's I/O step wrote a 4.04 "notification" to
+    (c, tok) about r, that was the last datagram of the notify loop to it -/
+theorem no_notification_after_error_notification_run (st : State) (e : Event) (evs : List Event) (r c tok : Nat) (out : Out)
+    (hid : IdsNodup st) (hnd : NoDupSt st) (ho : out ∈ (step st e).2) (hn : NoteTo out r c tok) (hcode : out.code = 132)
+    (hne : ∀ e ∈ evs, ¬ isRegOf e c r tok) :
+    ∀ out' ∈ (run (step st e).1 evs).2, ¬ NoteTo out' r c tok :=
+  Coap.Observe.no_notification_after_error_notification_run st e evs r c tok out hid hnd ho hn hcode hne
+
+/-- cause 5, session loss: for every resource and token of that session -/
+theorem no_notification_after_session_loss_run (st : State) (c : Nat) (s0 : Sess) (evs : List Event)
+    (h : st.sess c = some s0) (r tok : Nat) (hne : ∀ e ∈ evs, ¬ isRegOf e c r tok) :
+    ∀ out ∈ (run st (.lost c :: evs)).2, ¬ NoteTo out r c tok :=
+  Coap.Observe.no_notification_after_session_loss_run st c s0 evs h r tok hne
+
+/-- cause 6, resource deletion: after the `.del` step (which writes the 4.04 goodbyes, `goodbye_on_resource_deletion`) nothing
+    is ever written about r again — for every session and token, over ANY continuation, registration attempts included -/
+theorem no_notification_after_resource_deletion_run (st : State) (r : Nat) (evs : List Event) :
+    ∀ c tok, ∀ out ∈ (run (step st (.del r)).1 evs).2, ¬ NoteTo out r c tok :=
+  Coap.Observe.no_notification_after_resource_deletion_run st r evs
+
+/-- the well-formedness hypotheses used above are invariants of every run from an initial state -/
+theorem deregistration_invariants_init (res : List Res) (stTicks : Nat) (evs : List Event) (hids : (res.map (·.id)).Nodup)
+    (hsubs : ∀ y ∈ res, y.subs = []) :
+    IdsNodup (run (init res stTicks) evs).1 ∧ NoDupSt (run (init res stTicks) evs).1 ∧ FailZero (run (init res stTicks) evs).1 :=
+  invariants_of_init res stTicks evs hids hsubs
+
+/-- witness: notified before the cancel, never after it — until it registers again -/
+example : ∃ out ∈ (run runStart [.reg 0 0 1 0 true 1, .chg 0, .adv 0]).2, NoteTo out 0 0 1 := by decide
+example : ∀ out ∈ (run (run runStart [.reg 0 0 1 0 true 1, .chg 0, .adv 0]).1 [.can 0 0 1 0 true 2, .chg 0, .adv 0, .chg 0, .adv 0]).2,
+    ¬ NoteTo out 0 0 1 :=
+  no_notification_after_cancel_run _ 0 0 1 0 true 2 _ (run_idsNodup _ _ (by decide))
+    (run_noDup _ _ (by intro y hy; unfold NoDup; simp [runStart, init, mkRes] at hy; rcases hy with rfl | rfl <;> exact List.Pairwise.nil))
+    (by decide)
+example : ∃ out ∈ (run (run runStart [.reg 0 0 1 0 true 1, .chg 0, .adv 0]).1
+    [.can 0 0 1 0 true 2, .reg 0 0 1 0 true 3, .chg 0, .adv 0]).2, NoteTo out 0 0 1 := by decide
+
 
 end Coap.C11
